@@ -37,6 +37,7 @@ ASSUMPTIONS = {"*": [
 EXPECTED_FAULTS = {"C13": ["deadline", "stall", "consumer_stall"]}
 DETERMINISM_SAMPLE = {"quick": 4, "thorough": 12}
 EXHAUSTIVE = {}
+MIN_CASES = {'quick': 60, 'thorough': 250}
 BIG = 1e30
 
 
